@@ -478,6 +478,12 @@ class _Expr(ast.NodeTransformer):
                 if ok:
                     self.changed = True
                     return ast.copy_location(ast.Tuple(elts=vals, ctx=ast.Load()), n)
+        # format(x, SPEC)  ->  f"{x:SPEC}"     (SPEC a string constant or an f-string)
+        if isinstance(f, ast.Name) and f.id == "format" and len(n.args) == 2 and not n.keywords and not self.t._is_local("format") \
+                and (isinstance(n.args[1], ast.JoinedStr) or (isinstance(n.args[1], ast.Constant) and isinstance(n.args[1].value, str))):
+            spec = n.args[1] if isinstance(n.args[1], ast.JoinedStr) else ast.JoinedStr(values=[n.args[1]])
+            self.changed = True
+            return ast.copy_location(ast.JoinedStr(values=[ast.FormattedValue(value=n.args[0], conversion=-1, format_spec=spec)]), n)
         # map(f, xs)  ->  (f(x) for x in xs)     (one iterable, a plain callee)
         if isinstance(f, ast.Name) and f.id == "map" and len(n.args) == 2 and not n.keywords and not self.t._is_local("map") \
                 and isinstance(n.args[0], (ast.Name, ast.Attribute)):
@@ -688,6 +694,18 @@ class _Stmt:
             if isinstance(s, ast.AnnAssign) and s.value is not None and (self.t.f.name != "__init__" or _scalar_annotation(s.annotation)):
                 s = ast.copy_location(ast.Assign(targets=[s.target], value=s.value, lineno=s.lineno), s)
                 self.changed = True
+            # a, b = X, Y  ->  a = X; b = Y     (plain names on the left that none of the values reads: nothing is swapped)
+            if isinstance(s, ast.Assign) and len(s.targets) == 1 and isinstance(s.targets[0], ast.Tuple) and isinstance(s.value, ast.Tuple) \
+                    and len(s.targets[0].elts) == len(s.value.elts) and all(isinstance(t, ast.Name) for t in s.targets[0].elts) \
+                    and not any(isinstance(v, ast.Starred) for v in s.value.elts):
+                tn = {t.id for t in s.targets[0].elts}
+                if len(tn) == len(s.targets[0].elts) and not any(isinstance(x, ast.Name) and x.id in tn for v in s.value.elts for x in ast.walk(v)) \
+                        and sum(1 for v in s.value.elts if any(isinstance(x, ast.Call) for x in ast.walk(v))) <= 1:
+                    parts = [ast.copy_location(ast.Assign(targets=[ast.Name(id=t.id, ctx=ast.Store())], value=v, lineno=s.lineno), s)
+                             for t, v in zip(s.targets[0].elts, s.value.elts)]
+                    self.changed = True
+                    stmts = stmts[:i] + parts + stmts[i + 1:]
+                    continue
             # T = T op V  ->  T op= V
             if isinstance(s, ast.Assign) and len(s.targets) == 1 and isinstance(s.value, ast.BinOp) \
                     and isinstance(s.targets[0], (ast.Name, ast.Attribute, ast.Subscript)) \
